@@ -48,6 +48,8 @@ EXTRA_DOCS = [
     ("untitled-root-items-2", {"type": "array", "items": {"type": "object", "properties": {"b": {"type": "string"}}}}, None),
     ("untitled-root-anyOf", {"anyOf": [{"type": "object", "properties": {"a": {}}}, {"type": "object", "properties": {"b": {}}}]}, None),
     ("untitled-root-anyOf-2", {"anyOf": [{"type": "object", "properties": {"c": {}}}, {"type": "array", "items": [{"type": "object"}]}]}, None),
+    ("siblings-sharing-one-dependency", {"type": "object", "title": "Root", "properties": {n: {"$ref": "#/definitions/%s" % n} for n in ("zeta", "alpha", "mid", "beta", "omega", "kappa")}, "definitions": {**{n: {"type": "object", "title": n.capitalize(), "properties": {"shared": {"$ref": "#/definitions/shared"}, "own": {"type": "string"}}} for n in ("zeta", "alpha", "mid", "beta", "omega", "kappa")}, "shared": {"type": "object", "title": "Shared", "properties": {"leaf": {"$ref": "#/definitions/leaf"}}}, "leaf": {"type": "object", "title": "Leaf"}}}, None),
+    ("two-layers-of-siblings", {"type": "object", "title": "Top", "properties": {"l": {"type": "array", "items": {"anyOf": [{"$ref": "#/definitions/%s" % n} for n in ("w", "x", "y", "z")]}}}, "definitions": {**{n: {"type": "object", "title": "Node" + n.upper(), "properties": {"c": {"$ref": "#/definitions/core"}}} for n in ("w", "x", "y", "z")}, "core": {"type": "object", "title": "Core"}}}, None),
     ("many-required", {"type": "object", "title": "Req", "properties": {n: {"type": "integer"} for n in ("zeta", "alpha", "mid", "beta", "omega")}, "required": ["omega", "alpha", "zeta", "beta", "mid"]}, None),
     ("dependencies-and-patterns", {"type": "object", "title": "Dep", "dependencies": {"z": ["a"], "a": ["z"], "m": {"required": ["q"]}}, "patternProperties": {"^z": {"type": "integer"}, "^a": {"type": "string"}, "m$": {"type": "null"}}}, None),
 ]
@@ -63,8 +65,8 @@ def generate_all(tier, order, only=None):
     from mc import docs
     from statham.__main__ import main
     from statham.titles import title_labeller
-    from statham.schema.parser import parse
-    from statham.serializers import serialize_json
+    from statham.schema.parser import parse, parse_element
+    from statham.serializers import serialize_json, serialize_python
     from statham.serializers.orderer import get_object_classes
 
     fam = family(tier)
@@ -86,7 +88,9 @@ def generate_all(tier, order, only=None):
             elements = parse(materialize(RefDict.from_uri(docs.put(doc, extra, name=name) + "#/"), context_labeller=title_labeller()))
             js = json.dumps(serialize_json(*elements))
             names = [c.__name__ for c in get_object_classes(*elements)]
-            out[str(i)] = {"py": text, "json": js, "names": names}
+            # the public single-element entry point, called without an explicit parse state
+            direct = parse_element(materialize(RefDict.from_uri(docs.put(doc, extra, name=name) + "#/"), context_labeller=title_labeller()))
+            out[str(i)] = {"py": text, "json": js, "names": names, "direct_py": serialize_python(direct), "direct_json": json.dumps(serialize_json(direct))}
         except Exception as exc:
             out[str(i)] = {"py": "EXC %s: %s" % (type(exc).__name__, exc), "json": "", "names": []}
         if i % 200 == 0:
